@@ -64,6 +64,8 @@ def cond(name):
     tab = STATE.tables.get(name)
     if name.startswith("flag:"):
         v = bool(STATE.flags.get(name[5:], False))
+    elif name.startswith("notflag:"):
+        v = not STATE.flags.get(name[8:], False)
     elif tab is None:
         v = STATE.default
     elif callable(tab):
